@@ -475,6 +475,125 @@ fn barrier_generations() {
     });
 }
 
+/// C14 / C02, schedule half ("never succeeds in conflict"): try_write on one thread against try_read and
+/// try_upgradable_read on another, and try_upgrade against a try_read: no write guard next to any other guard.
+fn rw_try_race() {
+    let mut b = loom::model::Builder::new();
+    b.preemption_bound = bound();
+    b.check(|| {
+        EXECUTIONS.fetch_add(1, std::sync::atomic::Ordering::Relaxed);
+        let l = std::sync::Arc::new(RwLock::new(0u32));
+        let l2 = l.clone();
+        let t = loom::thread::spawn(move || l2.try_write_arc());
+        let r = l.try_read_arc();
+        let u = l.try_upgradable_read_arc();
+        let w = t.join().unwrap();
+        if w.is_some() && (r.is_some() || u.is_some()) {
+            panic!("LOOM-VIOLATION rw_try_race: exclusion: try_write succeeded while a guard obtained by try_read / try_upgradable_read is alive (read = {}, upgradable = {})", r.is_some(), u.is_some());
+        }
+        drop(w);
+        drop(r);
+        drop(u);
+        // try_upgrade against a reader that gets in
+        let l = std::sync::Arc::new(RwLock::new(0u32));
+        let u = l.try_upgradable_read_arc().unwrap();
+        let l2 = l.clone();
+        let t = loom::thread::spawn(move || l2.try_read_arc());
+        let up = async_lock::RwLockUpgradableReadGuardArc::try_upgrade(u);
+        let r = t.join().unwrap();
+        if up.is_ok() && r.is_some() {
+            panic!("LOOM-VIOLATION rw_try_race: exclusion: try_upgrade succeeded while a read guard obtained by try_read is alive");
+        }
+        drop(r);
+        drop(up);
+        if l.try_write_arc().is_none() {
+            panic!("LOOM-VIOLATION rw_try_race: nothing is alive and try_write fails: a try_* left something behind");
+        }
+    });
+}
+
+/// C12, schedule half: once a polled write() is pending behind a reader (its poll has returned Pending: the writer has
+/// announced itself), try_read on any thread returns None and a read() does not complete, until the writer has had the lock.
+fn rw_writer_announced() {
+    let mut b = loom::model::Builder::new();
+    b.preemption_bound = bound();
+    b.check(|| {
+        EXECUTIONS.fetch_add(1, std::sync::atomic::Ordering::Relaxed);
+        let l = std::sync::Arc::new(RwLock::new(0u32));
+        let r0 = l.try_read_arc().unwrap();
+        let ann = Arc::new(AtomicBool::new(false));
+        let (l2, ann2) = (l.clone(), ann.clone());
+        let t = loom::thread::spawn(move || {
+            let announced = ann2.load(Ordering::SeqCst);
+            let r1 = l2.try_read_arc();
+            let got = r1.is_some();
+            let mut tr = Task::new(l2.read_arc());
+            tr.poll();
+            let completed = tr.out.is_some();
+            drop(tr);
+            drop(r1);
+            (announced, got, completed)
+        });
+        let mut tw = Task::new(l.write_arc());
+        tw.poll();
+        if tw.pending() {
+            ann.store(true, Ordering::SeqCst);
+        }
+        let (announced, got, completed) = t.join().unwrap();
+        if announced && got {
+            panic!("LOOM-VIOLATION rw_writer_announced: a polled write() is pending behind a reader and try_read succeeded: the waiting writer does not stop new readers");
+        }
+        if announced && completed {
+            panic!("LOOM-VIOLATION rw_writer_announced: a polled write() is pending behind a reader and a read() future completed: the waiting writer does not stop new readers");
+        }
+        drop(r0);
+        tw.settle();
+        if tw.pending() {
+            panic!("LOOM-VIOLATION rw_writer_announced: lost wake-up: no guard is alive, every woken task has been polled again, the write() is pending");
+        }
+        drop(tw);
+    });
+}
+
+/// C13, try_lock clause under threads: f1 holds a starvation ticket and the mutex is unlocked; while f1 is polled on
+/// another thread (and acquires), try_lock on this thread returns None at every instant.
+fn mutex_starved_try() {
+    let mut b = loom::model::Builder::new();
+    b.preemption_bound = bound();
+    b.check(|| {
+        EXECUTIONS.fetch_add(1, std::sync::atomic::Ordering::Relaxed);
+        async_lock::verif::oracle_enable(true);
+        async_lock::verif::oracle_set(&[]);
+        let m = std::sync::Arc::new(Mutex::new(0u32));
+        let g0 = m.try_lock_arc().unwrap();
+        let mut t1 = Task::new(m.lock_arc());
+        t1.poll();
+        assert!(t1.pending());
+        drop(g0); // f1 notified
+        let g1 = m.try_lock_arc().unwrap(); // barging
+        async_lock::verif::oracle_set(&[true]);
+        t1.poll(); // loses the race, the clock says starved: f1 takes a ticket
+        assert!(t1.pending());
+        async_lock::verif::oracle_set(&[]);
+        let m2 = m.clone();
+        let t = loom::thread::spawn(move || {
+            drop(g1); // unlock: the mutex is momentarily free, f1 is notified
+            t1.settle();
+            t1
+        });
+        let barged = m2.try_lock_arc();
+        let t1 = t.join().unwrap();
+        if barged.is_some() {
+            panic!("LOOM-VIOLATION mutex_starved_try: try_lock succeeded while a starved lock operation was pending (it had {}acquired)", if t1.out.is_some() { "" } else { "not " });
+        }
+        if t1.pending() {
+            panic!("LOOM-VIOLATION mutex_starved_try: lost wake-up: the mutex is free, every woken task has been polled again, the starved lock_arc() is pending");
+        }
+        async_lock::verif::oracle_enable(false);
+        drop(t1);
+    });
+}
+
 fn main() {
     let which = std::env::args().nth(1).unwrap_or_else(|| "all".to_string());
     let tests: Vec<(&str, fn())> = vec![
@@ -489,6 +608,9 @@ fn main() {
         ("once_blocking_race", once_blocking_race),
         ("barrier_race", barrier_race),
         ("barrier_generations", barrier_generations),
+        ("rw_try_race", rw_try_race),
+        ("rw_writer_announced", rw_writer_announced),
+        ("mutex_starved_try", mutex_starved_try),
     ];
     for (name, f) in tests {
         if which == "all" || which == name {
